@@ -225,7 +225,7 @@ def cmdWf (args : List String) : String :=
     match parseMachine m with
     | .ok M =>
       let c : RtCtx := { M := M, ro := parseRtOpts opts }
-      s!"leavesOK={M.leavesOK c.semOpts} endArmsOK={M.endArmsOK} safeCheck={c.safeCheck} noSpin={c.noSpinCheck} yieldProgress={M.yieldProgressCheck c.semOpts} idxFree={c.idxFreeCheck} endFailOK={M.endFailOK c.semOpts} endFailExact={M.endFailExact c.semOpts} failClosed={M.failClosed c.semOpts} emptyFailsTarget={c.emptyFails M.failTarget} hasFailState={M.failIdx.isSome} neverFailsOnBytes={M.neverFailsOnBytes c.semOpts} states={M.states.size}"
+      s!"leavesOK={M.leavesOK c.semOpts} endArmsOK={M.endArmsOK} safeCheck={c.safeCheck} noSpin={c.noSpinCheck} yieldProgress={M.yieldProgressCheck c.semOpts} idxFree={c.idxFreeCheck} endFailOK={M.endFailOK c.semOpts} endFailExact={M.endFailExact c.semOpts} failClosed={M.failClosed c.semOpts} startClosed={c.startClosed} emptyFailsTarget={c.emptyFails M.failTarget} hasFailState={M.failIdx.isSome} neverFailsOnBytes={M.neverFailsOnBytes c.semOpts} states={M.states.size}"
     | .error e => s!"error parse {e}"
   | _ => "error bad-args"
 
